@@ -873,6 +873,31 @@ theorem valOf_callZ (hI : I * I = -1) {p : ZPoly} (hz : NumZ p.zero) (v : PyNum)
       | yes => exact num_evalHornerZ hI _ _
       | no => exact num_evalDirectZ hI _ _
 
+theorem order_eraseD (d : MPoly PyNum) : order (eraseD I d : MPoly K) = order d := by
+  unfold order
+  rw [isPolynomial_eraseD]
+  unfold eraseD mapV
+  rw [List.foldl_map]
+
+/-- `p.values()` erases to the field model's `values()` -/
+theorem erase_valuesZ (hI : I * I = -1) {p : ZPoly} (hz : NumZ p.zero) :
+    (valuesZ p).map (List.map (valOf I)) = values (erase I p) := by
+  unfold valuesZ values
+  rw [isEmpty_erase]
+  split
+  · rfl
+  · have ho : order (erase I p : MPoly K) = order p.data := order_eraseD _
+    rw [ho]
+    cases order p.data with
+    | error e => rfl
+    | ok n =>
+      show Except.ok _ = Except.ok _
+      congr 1
+      rw [List.map_map]
+      apply List.map_congr_left
+      intro i _
+      exact valOf_getZ hI hz _
+
 end Poly
 
 end ALV.C07
